@@ -28,6 +28,9 @@
 (*  TruncNow      pinned code: absolute-epoch retry-after is turned into a     *)
 (*                time-to-live with the clock truncated to whole seconds       *)
 (*  NoExpiryTest  (non-vacuity) Get relies on the sleeper only                 *)
+(*  StalePeek     (non-vacuity) Set measures the entry it is about to replace  *)
+(*                before it takes the lock (step WPeek); when the entry is     *)
+(*                removed in between (its sleeper) the size is given back twice *)
 (*  RefusalLeak   (non-vacuity) an overwrite refused under the lock has        *)
 (*                already given back the replaced entry's size and does not    *)
 (*                restore it although the entry stays                          *)
@@ -36,7 +39,7 @@
 EXTENDS Integers, FiniteSets, Sequences, TLC
 
 CONSTANTS Key, Typ, Ttl, MaxSize, Relevant, Sts, Hdrs, Szs, NVal, Writers, Steps, MaxNow, PerSec,
-          KF_UnlockedSizeCheck, TruncNow, NoExpiryTest, RefusalLeak, Sync,
+          KF_UnlockedSizeCheck, TruncNow, NoExpiryTest, RefusalLeak, StalePeek, Sync,
           OneGate,     \* explore only the schedules the single yield point of the real code can force: nothing is
                        \* written between the has test and the size test of a writer (counterexample extraction)
           KeepHist     \* record the step history (generation, counterexample schedules); FALSE in trace validation
@@ -64,7 +67,7 @@ Due == {s \in sleepers : s.at <= now}
 \* a sleeper whose time-to-live is not positive does not sleep: with a sequential driver it has run before the next operation
 Imm == {s \in sleepers : s.at <= s.born}
 Ready == Sync => (\A w \in Writers : wr[w].pc = "idle") /\ Imm = {}
-MayWrite(w) == OneGate => \A x \in Writers \ {w} : wr[x].pc # "check"
+MayWrite(w) == OneGate => \A x \in Writers \ {w} : wr[x].pc \notin {"check", "peek"}
 
 HasFresh(k) == store[k] # NoEntry /\ ~(now > store[k].exp)
 
@@ -130,7 +133,7 @@ WBegin(w, k, v, st, hh, hdr, sz) ==
     /\ (Typ = "cache" => hh = 0 /\ hdr = -1) /\ (Typ = "mem" => hh = 1) /\ (hh = 0 => hdr = -1)
     /\ (hh = 2 => Thr)
     /\ LET r == [pc |-> IF Typ = "mem" THEN "check" ELSE "has",
-                 k |-> k, v |-> v, st |-> st, hh |-> hh, hdr |-> hdr, sz |-> sz] IN
+                 k |-> k, v |-> v, st |-> st, hh |-> hh, hdr |-> hdr, sz |-> sz, old |-> -1] IN
        IF Thr /\ st \notin Relevant
        THEN Ends(r) /\ UNCHANGED wr
        ELSE Goes /\ wr' = [wr EXCEPT ![w] = r]
@@ -150,14 +153,22 @@ WCheck(w) ==
     /\ wr[w].pc = "check"
     /\ IF Sized /\ cur + wr[w].sz > MaxSize
        THEN Ends(wr[w]) /\ wr' = [wr EXCEPT ![w] = Idle]
-       ELSE Goes /\ wr' = [wr EXCEPT ![w] = [wr[w] EXCEPT !.pc = "insert"]]
+       ELSE Goes /\ wr' = [wr EXCEPT ![w] = [wr[w] EXCEPT !.pc = IF StalePeek THEN "peek" ELSE "insert"]]
     /\ Log([ev |-> "wcheck", w |-> w])
+    /\ UNCHANGED <<store, cur, sleepers, nv, ok>>
+
+\* (StalePeek) the size of the entry under the key is measured outside the lock
+WPeek(w) ==
+    /\ wr[w].pc = "peek"
+    /\ wr' = [wr EXCEPT ![w] = [wr[w] EXCEPT !.pc = "insert",
+                                            !.old = IF store[wr[w].k] # NoEntry THEN store[wr[w].k].sz ELSE 0]]
+    /\ Goes /\ Log([ev |-> "wpeek", w |-> w])
     /\ UNCHANGED <<store, cur, sleepers, nv, ok>>
 
 WInsert(w) ==
     /\ wr[w].pc = "insert" /\ MayWrite(w)
     /\ LET r == wr[w]
-           old == IF store[r.k] # NoEntry THEN store[r.k].sz ELSE 0
+           old == IF StalePeek THEN r.old ELSE IF store[r.k] # NoEntry THEN store[r.k].sz ELSE 0
            repaired == ~KF_UnlockedSizeCheck
            exp == now + TtlOf(r.hdr) IN
        IF repaired /\ Sized /\ cur - old + r.sz > MaxSize
@@ -200,7 +211,7 @@ Next ==
     \/ \E w \in Writers, k \in Key, st \in Sts, hh \in IF Thr THEN {0, 1, 2} ELSE {0, 1}, sz \in Szs :
           \E h \in IF hh >= 1 THEN Hdrs ELSE {-1} :
               WBegin(w, k, nv, st, hh, IF hh >= 1 THEN HdrArg(h) ELSE -1, sz)
-    \/ \E w \in Writers : WHas(w) \/ WCheck(w) \/ WInsert(w)
+    \/ \E w \in Writers : WHas(w) \/ WCheck(w) \/ WPeek(w) \/ WInsert(w)
     \/ \E k \in Key : Req(k)
 
 ISpec == Init /\ [][Next]_ivars
